@@ -428,6 +428,8 @@ def _only_specs_of(before, after, names):
     new = [x for x in after["iospecs"] if x not in before["iospecs"]]
     if new or any(not (set(x[-1].split(",")) & names) for x in gone):
         return False
+    # the entry of a spec lists EVERY name of the model bound to its value: all of them lose the spec with it
+    names = set(names) | set(n for x in gone for n in x[-1].split(","))
     changed = [n for n in set(before["spec_of"]) | set(after["spec_of"])
                if before["spec_of"].get(n) != after["spec_of"].get(n)]
     return all(n in names for n in changed)
